@@ -439,6 +439,7 @@ impl<'a> Gen<'a> {
             ),
             8 => format!("{ind}local   {a}=2 {b}(\n{ind}  {c}\n{ind})\n"),
             9 => format!("{ind}do\n{ind}  do\n{ind}      local {a} = \"first \\z\n{ind}           second\" .. \"x\\\n{ind}   y\"\n{ind}  end\n{ind}end\n"),
+            10 if self.comments => format!("{ind}{a} = -- why\n{ind}  {}\n{ind}local {b}, {c} = 1, -- first\n{ind}   2 -- second\n", self.tricky_expr()),
             10 => format!("{ind}{a}({b}) {c} = {}\n", self.tricky_expr()),
             _ => format!("{ind}local {a} = {}\n", self.tricky_expr()),
         }
